@@ -49,7 +49,7 @@ var commonAssumptions = []string{
 var realStub = []string{
 	"real: go-res root package, store, store/badgerstore, store/mockstore, resprot, middleware, logger (built from /repo working tree with -tags verif)",
 	"real: jirenius/timerqueue v1.0.0 on the bubble's fake clock",
-	"real with yield points: jirenius/taskqueue v1.1.0 (verbatim copy under sim/third_party with yield points before enqueueing, after a wake-up from a full queue and before the worker takes the next task; its capacity in badgerstore is varied per run through a verif-tagged hook)",
+	"real with yield points: jirenius/taskqueue v1.1.0 (copy under sim/third_party, verbatim except that a full queue wakes all waiters instead of one - the original loses wake-ups with two blocked producers -, with yield points before enqueueing, after a wake-up from a full queue and before the worker takes the next task; its capacity in badgerstore is varied per run through a verif-tagged hook)",
 	"real with three yield points: dgraph-io/badger v1.6.2 on real files under a per-run temp directory (the build step copies the module to a scratch directory and makes DB.View and DB.Update yield before the transaction starts and DB.Update between the user's function and the commit)",
 	"stub: jirenius/keylock (scheduler-visible re-implementation with the same API and RW semantics)",
 	"stub: NATS server (in-process routing model); tier A replaces the nats.go client by SimConn",
